@@ -852,6 +852,95 @@ def _mutated_params(ctx: Ctx) -> Dict[int, Set[str]]:
     return out
 
 
+def expansion_covers_members(ctx: Ctx, rep: Report, rid: str = "R05.12") -> None:
+    """The networks of a group are the networks of all its members: in every `ipnets` method, a loop over the members
+    has no way round - each iteration either raises or adds that member's networks to the result (a member left out of a
+    candidate makes the candidate look smaller than it is: 'covered' although a part of it is not)."""
+    from .common import loop_body_paths
+
+    rep.rule(rid)
+    n = 0
+    for cls in ctx.prog.classes.values():
+        f = cls.methods.get("ipnets")
+        if f is None:
+            continue
+        cfg = ctx.cfg(f)
+        for lp in [x for x in cfg.live if x.kind == "for" and "items" in src(x.ast.iter)]:
+            n += 1
+            rep.instance()
+            var = {y.id for y in ast.walk(lp.ast.target) if isinstance(y, ast.Name)}
+            bad = None
+            for path in loop_body_paths(cfg, lp):
+                if path[-1][0] is not lp:
+                    continue  # leaves the loop (return / raise)
+                grows = False
+                derived = set(var)
+                for nd, _lab in path:
+                    if nd.kind == "stmt" and isinstance(nd.ast, (ast.Assign, ast.AnnAssign)) and nd.ast.value is not None and ({y.id for y in ast.walk(nd.ast.value) if isinstance(y, ast.Name)} & derived):
+                        t = nd.ast.targets[0] if isinstance(nd.ast, ast.Assign) else nd.ast.target
+                        derived |= {y.id for y in ast.walk(t) if isinstance(y, ast.Name)}
+                    if nd.kind == "stmt" and nd.ast is not None:
+                        for x in ast.walk(nd.ast):
+                            if isinstance(x, ast.Call) and isinstance(x.func, ast.Attribute) and x.func.attr in ("extend", "append") and x.args and ({y.id for y in ast.walk(x.args[0]) if isinstance(y, ast.Name)} & derived):
+                                grows = True
+                            if isinstance(x, ast.AugAssign) and isinstance(x.op, ast.Add) and ({y.id for y in ast.walk(x.value) if isinstance(y, ast.Name)} & derived):
+                                grows = True
+                if not grows:
+                    bad = path
+                    break
+            if bad is not None:
+                held = "; ".join(f"{snippet(nd.ast, 40)}{'' if lab == 'T' else ' (false)'}" for nd, lab in bad if nd.kind == "cond" and lab in ("T", "F"))
+                rep.violation(f.qualname, f"for {src(lp.ast.target)} in {snippet(lp.ast.iter, 30)}: path [{held}]", "an iteration can end without adding this member's networks: the group is answered for as if the member were not there", where(f, lp.ast), inp="a group with a non-contiguous member, asked with the option that skips it")
+            else:
+                rep.ok(f"{f.qualname}: for {src(lp.ast.target)} in {snippet(lp.ast.iter, 30)}", "every iteration raises or adds the member's networks", where=where(f, lp.ast))
+        for x in own_nodes(f.node):
+            if isinstance(x, (ast.ListComp, ast.GeneratorExp, ast.SetComp)) and any("items" in src(g_.iter) for g_ in x.generators):
+                n += 1
+                rep.instance()
+                if any(g_.ifs for g_ in x.generators):
+                    rep.violation(f.qualname, snippet(x, 70), "members are filtered out of the expansion of the group", where(f, x))
+                else:
+                    rep.ok(f"{f.qualname}: {snippet(x, 50)}", "runs over all members", where=where(f, x))
+    rep.floor(1, "member loops of ipnets()") if n else None
+
+
+def memo_filled_in_place(ctx: Ctx, rep: Report, rid: str = "R05.10") -> None:
+    """A memo becomes visible only when it is complete: the method that answers from `self._m` when it is set does not
+    grow that very list while computing (an error or interruption half way leaves a partial list that every later query
+    returns as the whole answer); it computes into a local and assigns."""
+    rep.rule(rid)
+    n = 0
+    for cls in ctx.prog.classes.values():
+        for f in list(cls.methods.values()) + list(cls.getters.values()):
+            aliases: Dict[str, str] = {}
+            for x in own_nodes(f.node):
+                if isinstance(x, (ast.Assign, ast.AnnAssign)) and x.value is not None:
+                    t = x.targets[0] if isinstance(x, ast.Assign) else x.target
+                    if isinstance(t, ast.Name) and isinstance(x.value, ast.Attribute) and src(x.value.value) == "self":
+                        aliases[t.id] = x.value.attr
+            returned_when_set = set()
+            for x in own_nodes(f.node):
+                if isinstance(x, ast.If) and any(isinstance(r, ast.Return) for r in x.body):
+                    names = {y.id for y in ast.walk(x.test) if isinstance(y, ast.Name)} | {y.attr for y in ast.walk(x.test) if isinstance(y, ast.Attribute) and src(y.value) == "self"}
+                    for r in x.body:
+                        if isinstance(r, ast.Return) and r.value is not None:
+                            rv = src(r.value)
+                            if rv in aliases and rv in names:
+                                returned_when_set.add((rv, aliases[rv]))
+                            elif rv.startswith("self.") and rv[5:] in names:
+                                returned_when_set.add((rv, rv[5:]))
+            for expr, attr in sorted(returned_when_set):
+                n += 1
+                rep.instance()
+                grown = [x for x in own_nodes(f.node) if isinstance(x, ast.Call) and isinstance(x.func, ast.Attribute) and x.func.attr in ("append", "extend", "insert", "add", "update") and src(x.func.value) == expr]
+                if grown:
+                    rep.violation(f.qualname, f"{snippet(grown[0], 50)} on the memo self.{attr}", f"the memo self.{attr} is filled in place while it is computed: when the computation stops half way the partial list stays and is returned as the complete answer by every later query", where(f, grown[0]))
+                else:
+                    rep.ok(f"{f.qualname}: memo self.{attr}", "computed into a local, assigned when complete", where=where(f))
+    if n == 0:
+        rep.note(f"{rid} no method answers from an attribute when it is set")
+
+
 def r05_9(ctx: Ctx, rep: Report, rid: str = "R05.9") -> None:
     """The list a memoised method hands out is the memo itself: whoever receives it must not change it, or the owner
     answers every later query from the changed list."""
@@ -911,17 +1000,29 @@ def r05_9(ctx: Ctx, rep: Report, rid: str = "R05.9") -> None:
             elif isinstance(par, ast.NamedExpr) and par.value is c and isinstance(par.target, ast.Name):
                 alias = par.target.id
             if alias and bad is None:
-                dn = cfg.node_containing(c)
-                if dn is not None:
-                    def rebinding(m: Node, dn=dn, alias=alias) -> bool:
+                dn0 = cfg.node_containing(c)
+                work: List[Tuple[str, Node]] = [(alias, dn0)] if dn0 is not None else []
+                done: Set[Tuple[str, int]] = set()
+                while work and bad is None:
+                    alias_, dn = work.pop()
+                    if (alias_, id(dn)) in done:
+                        continue
+                    done.add((alias_, id(dn)))
+
+                    def rebinding(m: Node, dn=dn, alias=alias_) -> bool:
                         return m is not dn and m.ast is not None and any(isinstance(y, ast.Name) and y.id == alias and isinstance(y.ctx, ast.Store) for y in (ast.walk(m.ast.target) if m.kind == "for" else ast.walk(m.ast) if m.kind in ("stmt", "cond") else []))
 
                     for m in cfg.reachable(dn, avoid=rebinding, labels_avoid=("exc",)) | {dn}:
                         if m.ast is None or m.kind not in ("stmt", "cond", "for"):
                             continue
                         root = m.ast.iter if m.kind == "for" else m.ast
+                        # a second name for the same list: `result = received`
+                        if m.kind == "stmt" and isinstance(m.ast, (ast.Assign, ast.AnnAssign)) and isinstance(m.ast.value, ast.Name) and m.ast.value.id == alias_ and m is not dn:
+                            t2 = m.ast.targets[0] if isinstance(m.ast, ast.Assign) else m.ast.target
+                            if isinstance(t2, ast.Name):
+                                work.append((t2.id, m))
                         for y in ast.walk(root):
-                            if isinstance(y, ast.Name) and y.id == alias:
+                            if isinstance(y, ast.Name) and y.id == alias_:
                                 py = getattr(y, "_parent", None)
                                 if isinstance(py, ast.Attribute) and py.attr in MUTATORS and isinstance(getattr(py, "_parent", None), ast.Call) and getattr(py, "_parent").func is py:
                                     bad = py
@@ -959,3 +1060,9 @@ def run(ctx: Ctx, rep: Report, tier: str) -> None:
     members_only_for_groups(ctx, rep, rid="R05.7")
     r05_8(ctx, rep)
     r05_9(ctx, rep)
+    memo_filled_in_place(ctx, rep)
+    expansion_covers_members(ctx, rep)
+    # R05.11 a factory hands the caller's limit (all its keyword arguments) to the object it builds, on every path
+    from .c16 import dict_builders_pass_everything
+
+    dict_builders_pass_everything(ctx, rep, rid="R05.11", factories=True)
